@@ -963,6 +963,7 @@ fn vectors_phase(ctx: &mut Ctx, data: &[Option<SpecData>]) {
         check_vector(ctx, &v);
         return;
     }
+    let mut sampled: Vec<&'static str> = Vec::new();
     for (crate_ix, d) in data.iter().enumerate() {
         let d = match d {
             Some(d) => d,
@@ -978,7 +979,8 @@ fn vectors_phase(ctx: &mut Ctx, data: &[Option<SpecData>]) {
             }
             ctx.seen("classes_swept", &v.class);
             ctx.case(Some(fnv1a(format!("vec|{}|{}", crate_ix, v.idx).as_bytes())));
-            if ctx.want_sample() && v.idx % 977 == 3 {
+            if sampled.len() < 3 && crate_ix >= 1 && v.class != "typical" && !sampled.contains(&v.expect.name()) {
+                sampled.push(v.expect.name());
                 ctx.sample(json!({"phase": "vectors", "crate": SPECS[crate_ix].0, "kind": v.kind.name(), "name": v.name, "expect": v.expect.name(), "tag": v.tag,
                     "payload": if v.kind == Kind::Object { v.payload.clone() } else { hex_short(&unhex(&v.payload)) }}));
             }
